@@ -48,9 +48,14 @@ ASSUMPTIONS = [
     "fixed-point bound: defect <= 2 q rho + 1e-12 (1 + ||v*||_inf) (rounding allowance); exact-solution bound: that / (1-q)",
     "MDANewtonRaphson / MDAGSNewton / sequences containing them are given all-strongly-coupled systems only (documented "
     "ValueError otherwise, which is checked) - other systems reach them through MDAChain",
-    "MDAQuasiNewton: a run in which the SciPy method exhausts its evaluation budget, or (hybr/lm without gradient) is stuck "
-    "on a tiny non-zero coupling component because of MINPACK's relative finite-difference step, is inconclusive "
-    "(counted in classes 'inconclusive:*'), not a violation",
+    "MDAQuasiNewton: the result of scipy.optimize.root (dropped by gemseo) is observed through a pass-through wrapper of "
+    "gemseo.mda.quasi_newton.root; a run in which SciPy itself reports a failure (budget exhausted, 'not making good "
+    "progress', ...), or (hybr/lm without gradient) is stuck on a tiny non-zero coupling component because of MINPACK's "
+    "relative finite-difference step, is inconclusive (classes 'inconclusive:*'), not a violation; a run in which SciPy "
+    "reports success must satisfy rho = 100 tol sqrt(n) max(1, (1+q)||v0-v*||_inf, ||v*||_inf): SciPy's criteria (relative "
+    "step tol for hybr/lm, |F| <= tol |F0| and |dx| <= tol |x| for the nonlin_solve methods, ||F||_2 <= sqrt(n) tol + tol "
+    "||F0||_2 for df-sane) bound the coupling residual by (1+q) tol sqrt(n) max(1, r0, vmax), the factor 100 is a safety "
+    "margin (largest ratio observed over 3600 quasi-Newton runs: 0.56), the defect bound is 2 rho + rounding allowance",
     "Newton linear solvers are DEFAULT (direct), GMRES and LGMRES: BiCGStab-type breakdowns are a property of those methods",
     "while the known finding C06-F8 is open, MDAQuasiNewton configurations are held to oracles (1)-(3) on the couplings "
     "inside cycles only (the other outputs are those of SciPy's last trial point)",
@@ -223,9 +228,29 @@ def is_sequential_ending_with_silent_quasi_newton(cfg: dict) -> bool:
     return last["cls"] == "MDAQuasiNewton" and last["qn_method"] not in ("broyden1", "broyden2")
 
 
-def is_quasi_newton_without_strong_couplings(cfg: dict, info: dict) -> bool:
-    """Ledger class: a top-level MDAQuasiNewton on a system without any cycle."""
-    return cfg["kind"] in ("solver", "sequential") and uses_quasi_newton(cfg) and info["n_scc_ge2"] == 0 and info["n_self_coupled"] == 0
+def is_quasi_newton_without_strong_couplings(cfg: dict, info: dict, model: CoupledSystem | None = None) -> bool:
+    """Ledger class C06-F4: a top-level MDAQuasiNewton whose weakly coupled disciplines are not chained.
+
+    MDAQuasiNewton executes all its disciplines on the same data at every residual evaluation (and once more
+    after the solve): (a) without any cycle nothing is iterated; (b) a weakly coupled discipline that depends
+    on a cycle and feeds another discipline hands over values that lag one evaluation behind, so that the
+    outputs downstream are stale and, when a cycle is downstream, the residual seen by SciPy is not a function
+    of the unknowns (SciPy then often reports 'not making good progress', which gemseo ignores).
+    """
+    if cfg["kind"] not in ("solver", "sequential") or not uses_quasi_newton(cfg):
+        return False
+    if info["n_scc_ge2"] == 0 and info["n_self_coupled"] == 0:
+        return True
+    if model is None:
+        return False
+    succ = model.graph()
+    in_cycle = {i for c in model.sccs() if len(c) > 1 or c[0] in succ[c[0]] for i in c}
+    downstream = set(in_cycle)  # disciplines depending on a cycle
+    frontier = set(in_cycle)
+    while frontier:
+        frontier = {k for i in frontier for k in succ[i]} - downstream
+        downstream |= frontier
+    return any(i not in in_cycle and succ[i] for i in downstream)
 
 
 UNGUARDED_ACCELERATIONS = {"Aitken", "Secant", "AlternateDeltaSquared"}
@@ -279,8 +304,10 @@ def execute_and_check(ctx, mda, model, cfg, x, sol, e0, label):
     """Run the MDA and apply oracles (1) and (2); None when the run falls in a known / inconclusive class."""
     from vlib.core import Violation
 
+    del SCIPY_RESULTS[:]
     try:
-        out = mda.execute(x)
+        with _record_scipy_results():
+            out = mda.execute(x)
     except NonFiniteInput as exc:  # raised by the harness disciplines: the MDA iterates on NaN / inf
         if is_nan_on_stagnation(mda, aborted=True) and ctx.known("acceleration_nan_on_stagnation"):
             return None
@@ -299,10 +326,10 @@ def execute_and_check(ctx, mda, model, cfg, x, sol, e0, label):
     try:
         return check_returned(ctx, model, cfg, x, out, sol, e0, label)
     except Violation:
-        if quasi_newton_budget_exhausted(mda, cfg):
-            ctx.cls("inconclusive:quasi_newton_budget_exhausted")
-            ctx.note("MDAQuasiNewton runs in which the SciPy method used its whole budget without converging are "
-                     "counted as inconclusive (non-convergence of the third-party method, logged by gemseo)")
+        if quasi_newton_budget_exhausted(mda, cfg) or any(not ok for ok, _ in SCIPY_RESULTS):
+            ctx.cls("inconclusive:quasi_newton_scipy_reports_failure")
+            ctx.note("MDAQuasiNewton runs in which SciPy itself reports a failure (budget exhausted, 'not making good "
+                     "progress', ...) are counted as inconclusive (non-convergence of the third-party method)")
             return None
         if is_fd_step_degenerate(cfg, model, out, sol):
             ctx.cls("inconclusive:scipy_fd_step_degenerate")
@@ -316,6 +343,33 @@ def is_subresidual_scaling_without_resolved_variables(cfg: dict, info: dict) -> 
     """Ledger class: INITIAL_SUBRESIDUAL_NORM / INITIAL_RESIDUAL_COMPONENT on a top-level Gauss-Seidel MDA of a system without any cycle."""
     return (cfg["scaling"] in ("initial_subresidual_norm", "initial_residual_component", "scaled_initial_residual_component") and cfg["kind"] in ("solver", "sequential")
             and any(s["cls"] == "MDAGaussSeidel" for s in solver_parts(cfg)) and info["n_scc_ge2"] == 0 and info["n_self_coupled"] == 0)
+
+
+SCIPY_RESULTS: list = []  # (success, message) of every scipy.optimize.root call of the current execution
+
+
+class _record_scipy_results:
+    """Observe the OptimizeResult of the scipy.optimize.root calls made by MDAQuasiNewton (gemseo drops it).
+
+    Observation only: the wrapper forwards the arguments and returns SciPy's result unchanged.
+    """
+
+    def __enter__(self):
+        import gemseo.mda.quasi_newton as module
+
+        self.module, self.original = module, module.root
+
+        def root(*args, **kwargs):
+            result = self.original(*args, **kwargs)
+            SCIPY_RESULTS.append((bool(result.success), str(result.message)))
+            return result
+
+        module.root = root
+        return self
+
+    def __exit__(self, *exc):
+        self.module.root = self.original
+        return False
 
 
 def quasi_newton_budget_exhausted(mda, cfg: dict) -> bool:
@@ -399,10 +453,12 @@ def residual_bound(cfg: dict, model: CoupledSystem, e0: float, vmax: float) -> f
     r0 = (1.0 + model.q) * e0
     smax = max(model.sizes[name] for name in model.out_names)
     if uses_quasi_newton(cfg):
-        # SciPy's criteria are relative and MINPACK / nonlin_solve differentiate numerically: a requested tolerance
-        # below ~1e-11 is beyond what the third-party method can attain (observed 2.9e-10 at tol=1e-13 with hybr,
-        # thorough tier), hence the floor
-        return max(100.0 * tol * math.sqrt(n), 1e-9) * max(1.0, r0, vmax)
+        # SciPy's own criteria, when it reports success (a reported failure is inconclusive, see execute_and_check):
+        #   hybr / lm        relative step  <= tol            -> error <= tol ||y||_2 <= tol sqrt(n) vmax
+        #   nonlin_solve     |F|_inf <= tol |F0|_inf and |dx|_inf <= tol |y|_inf  -> residual <= tol r0
+        #   df-sane          ||F||_2 <= sqrt(n) tol + tol ||F0||_2               -> residual <= tol sqrt(n) (1 + r0)
+        # and residual <= (1+q) error: all below tol sqrt(n) max(1, r0, vmax) (1+q); a safety factor ~75 is granted
+        return 100.0 * tol * math.sqrt(n) * max(1.0, r0, vmax)
     return {
         "no_scaling": tol,  # ||R||_2 <= tol
         "n_coupling_variables": tol * math.sqrt(n),  # ||R||_2 <= tol sqrt(n_resolved)
@@ -516,7 +572,7 @@ def _case_mda(p, ctx):
             continue
         if is_sequential_ending_with_silent_quasi_newton(cfg) and ctx.known("sequential_ending_with_quasi_newton_without_residual_output"):
             continue
-        if is_quasi_newton_without_strong_couplings(cfg, info) and ctx.known("quasi_newton_without_strong_couplings"):
+        if is_quasi_newton_without_strong_couplings(cfg, info, model) and ctx.known("quasi_newton_without_strong_couplings"):
             continue
         if is_subresidual_scaling_without_resolved_variables(cfg, info) and ctx.known("subresidual_scaling_without_resolved_variables"):
             continue
